@@ -12,7 +12,7 @@
 (* AliasNames (distinct inside one module, so alias names COLLIDE ACROSS modules), and exposes    *)
 (* the imported module's class as a variable, a function result or a method result of its own     *)
 (* class T.  Every module after the first imports at least one earlier upstream module.           *)
-(* Family "gen": class P(Generic[...]) over 1..MaxParams of the type variables TVarNames in       *)
+(* Family "gen": class P(Generic[...]) over MinParams..MaxParams of the type variables TVarNames in *)
 (* EVERY declaration order, attributes typed by the parameters in the shapes AttrShapes.          *)
 EXTENDS StubImport, Json
 
@@ -23,7 +23,7 @@ CONSTANTS Family,       \* "dag" | "gen"
           AliasNames,   \* dag: alias names besides the plain import
           UsesInner, UsesLast,  \* dag: subsets of {"var", "fn", "meth"}
           FixClasses,   \* dag: subset of {"Cfg", "Own"}
-          TVarNames, MaxParams, AttrShapes, Locs, Subs   \* gen
+          TVarNames, MinParams, MaxParams, AttrShapes, Locs, Subs   \* gen
 
 VARIABLES mods, gp, gs, gloc, gsub, done
 vars == <<mods, gp, gs, gloc, gsub, done>>
@@ -42,6 +42,8 @@ AddImport ==
   /\ \E t \in Targets(Cur) \ UsedT(mods[Cur]), a \in ({""} \cup AliasNames) \ UsedA(mods[Cur]),
         u \in (IF Cur = NUp THEN UsesLast ELSE UsesInner), c \in FixClasses :
        /\ (t \notin Fixtures => c = "Cfg")
+       \* (the last free slot of a module that imports no earlier upstream module yet goes to one)
+       /\ (Cur > 1 /\ Len(mods[Cur]) + 1 = CapOf(Cur) /\ ~Connected(Cur) => t \notin Fixtures)
        /\ mods' = [mods EXCEPT ![Cur] = Append(@, [t |-> t, a |-> a, u |-> u, c |-> c])]
   /\ UNCHANGED <<GenVars, done>>
 
@@ -61,7 +63,7 @@ AddParam ==
   /\ UNCHANGED <<mods, gloc, gsub, done>>
 
 Place ==
-  /\ Family = "gen" /\ ~done /\ Len(gp) >= 1
+  /\ Family = "gen" /\ ~done /\ Len(gp) >= MinParams
   /\ \E l \in Locs, s \in Subs : gloc' = l /\ gsub' = s
   /\ done' = TRUE /\ UNCHANGED <<mods, gp, gs>>
 
